@@ -27,8 +27,20 @@ Three layers, all on every run:
    checked harmless; after permuted names = known finding reused_no_reassign); (c) deep snapshots of every input
    (circuit attributes, init_kwargs, gate objects, graph) before / after each call, outputs of earlier calls
    re-compared after later calls.
+5. round 5.  (family F, C09/PropsGraphRepr.v) the connectivity graph in another REPRESENTATION: in every stream ~65 % of the
+   graphs are handed over as nx.Graph / a user subclass / a symmetric nx.DiGraph, nodes and edges inserted in random
+   order and orientation, with edge attributes (`weight` in {0.25, 0.5, 0.75, 1, 2, 3}: weighted and unweighted
+   distances differ, NON-adjacent nodes at weighted distance exactly 1; length, fidelity, distance, name, layer ...),
+   node attributes (weight, layer, pos ...) and graph attributes; plus a deterministic weighted corpus (8 weight
+   profiles x 6 shapes x label styles x cyclic wire order x all routers).  The spec-level checks are unchanged:
+   executability is about the EDGES of the user's graph.  (family D) deterministic corpus of control-sharing /
+   target-sharing triples of two-qubit blocks (CNOT, CZ, CY, CRX, CRY, CRZ, CU1, SWAP, iSWAP, FSWAP, RXX in both
+   orientations, optional one-qubit gate on the shared qubit) + random controlled-gate circuits; new spec-level check
+   `blocks_operator`: the gates of block_decomposition(c) in block order implement c's operator (exact).
+   Router calls run under a time limit that cannot be swallowed (BaseException, re-firing) and shrinks after repeated
+   time-outs.
 """
-STATIC = ["C09/Props", "C09/ModelCheck", "C09/ModelDag", "C09/InstMat", "C09/PropsAttrs"]
+STATIC = ["C09/Props", "C09/ModelCheck", "C09/ModelDag", "C09/InstMat", "C09/PropsAttrs", "C09/PropsGraphRepr"]
 import itertools
 import json
 import os
@@ -1322,7 +1334,9 @@ RULE = ("cases = (connectivity graph family x node relabelling x wire-name permu
         "distinct = distinct (graph, wire names, circuit, router settings); plus histories: one router object reused "
         "(connectivity re-assigned / not re-assigned), circuits whose wire names / density_matrix flag were set and reset "
         "(constructor, setter, None) and that were copied / deep-copied / added before routing; inputs deep-snapshotted "
-        "before and after every call, outputs of earlier calls re-compared after later calls")
+        "before and after every call, outputs of earlier calls re-compared after later calls; round 5: every stream's graphs also in "
+        "other representations (subclass / symmetric DiGraph, insertion order, orientation, edge weights 0.25..3, other edge / node / "
+        "graph attributes), weighted-graph corpus, block-order corpus of control-/target-sharing two-qubit triples (operator-judged)")
 
 
 def theorem_obligations(run, theory="C09/Props"):
@@ -1536,6 +1550,7 @@ def main(run):
     theorem_obligations(run)
     theorem_obligations(run, "C09/InstMat")     # routing_ok at the concrete dense matrices of Base/Mat.v
     theorem_obligations(run, "C09/PropsAttrs")  # circuit attribute histories = fresh circuit; reused router connectivity
+    theorem_obligations(run, "C09/PropsGraphRepr")  # guarded runs depend on the EDGE SET only (order / orientation / duplicates)
     run.notes["interpretation_instance"] = ("PROVED (C09/InstMat.v, Base/Sem.v, Base/SemPerm.v): qibo-style dense operators "
                                             "(embed of a gate matrix on its qubits, qubit-permutation matrices, SWAP for the inserted "
                                             "gate) form an `interp`: disjoint gates commute, permutation equivariance, tag 0 = SWAP; "
